@@ -95,13 +95,13 @@ def rule_beh(rule, doc):
             tuple((canon(f.value), tuple(f.reasons)) for f in rt.failures))
 
 
-def schema_beh(s, doc):
+def schema_beh(s, doc, reasons=True):
     ok, vd = call(s.validate, M.deep_copy(doc))
     if not ok:
         return ("raise", vd.type)
     return (vd.is_valid, vd.num_failures, vd.num_rules_tested, canon(vd.cast_data),
             tuple(tuple(canon(tuple(f.path)) for f in t.failures) for t in vd.rule_tests),
-            tuple(tuple((canon(f.value), tuple(f.reasons)) for f in t.failures) for t in vd.rule_tests))
+            tuple(tuple((canon(f.value), tuple(f.reasons) if reasons else None) for f in t.failures) for t in vd.rule_tests))
 
 
 def roundtrip(ctx, obj, cls, tag, ctail):
